@@ -122,6 +122,7 @@ def run(facts, rep, tier):
     # the semantic engines first: a kernel they decide completely (no undecided leaf) needs no structural fallback
     decided = indexmap(F, rep)
     decided.update(slicemap(F, rep))
+    rangemap(F, rep)
     # crate-local helpers the kernels delegate to belong to the kernels (bounds normalisation moved into a helper ...)
     for n, f in list(fns.items()):
         for q in F.closure([f.path], pred=lambda x: F.fns[x].crate == f.crate and "{" not in x.split("::")[-1]):
@@ -178,6 +179,32 @@ def indexmap(F, rep):
             rep.notes.append("INDEXMAP %s: %d of %d leaf regions undecided (%s)" % (
                 short, undec, n, "; ".join(getattr(idxeval.check_kernel, "reasons", [])[:3])))
     return decided
+
+
+def rangemap(F, rep):
+    """RANGEMAP — `PyRange::next` yields `cur` exactly while it is before `end` in the direction of `step`, and then
+    advances by `step` (Python's range): decided over the whole (cur, end, step) space by IDXEVAL."""
+    import idxeval
+    cands = [g for p, g in F.fns.items() if p.startswith("<incan_stdlib::iter::PyRange as") and p.endswith("::next")]
+    if not rep.anchor("RANGEMAP", "<PyRange as Iterator>::next", cands):
+        return
+    f = cands[0]
+    rep.functions.add(f.path)
+    n, viol, undec = idxeval.check_range_next(F, f)
+    rep.oblige("RANGEMAP", "PyRange::next", not viol, sample={"rule": "RANGEMAP", "leaf_regions": n, "undecided": undec,
+                                                             "violations": viol[:2]})
+    seen = set()
+    for v in viol:
+        key = "RANGEMAP|PyRange::next|%s" % v["case"]
+        if key in seen:
+            continue
+        seen.add(key)
+        w = v["witness"]
+        rep.add(Finding("RANGEMAP", key, "PyRange::next, case [%s]: %s (e.g. cur=%s end=%s step=%s)"
+                        % (v["case"], v["what"], w["cur"], w["end"], w["step"]), file=f.file, line=f.line, fn=f.path))
+    if undec:
+        rep.notes.append("RANGEMAP: %d of %d leaf regions undecided (%s)" % (
+            undec, n, "; ".join(getattr(idxeval.check_range_next, "reasons", [])[:3])))
 
 
 SLICE_KERNELS = (
